@@ -1073,9 +1073,14 @@ class ChannelFactory:
             except (Exception, SystemExit) as exc:
                 self.gateway._trace("exception during callback: %s" % exc)
                 errortext = self.gateway._geterrortext(exc)
-                self.gateway._send(
-                    Message.CHANNEL_CLOSE_ERROR, id, dumps_internal(errortext)
-                )
+                try:
+                    self.gateway._send(
+                        Message.CHANNEL_CLOSE_ERROR, id, dumps_internal(errortext)
+                    )
+                except OSError:
+                    # the other side is gone already: it cannot be told, but
+                    # the frames that are still unread must be processed
+                    self.gateway._trace("could not report callback failure")
                 self._local_close(id, RemoteError(errortext))
 
     def _finished_receiving(self) -> None:
